@@ -50,6 +50,12 @@ def cases(tier):
             continue
         for fi, _ in enumerate(S.single_fault_plans(shape, counts=(1, 2) if tier == "quick" else (1, 2, 3))):
             out.append({"enum": "single", "shape": si, "fault": fi, "counts": 2 if tier == "quick" else 3})
+    # every input transfer of a multi-input job fails in the same attempt (each TransferStep reports its
+    # own failure of the same job), alone and together with a later execute failure
+    for kind in ("diamond", "fan"):
+        for fk in ("soft", "stop"):
+            for then_exec in (0, 1):
+                out.append({"enum": "allinputs", "kind": kind, "fault_kind": fk, "then_exec": then_exec})
     return out
 
 
@@ -78,6 +84,12 @@ def run(sim, params):
     if params.get("enum") == "single":
         shape = ENUM_SHAPES[params["shape"]]
         faults = list(S.single_fault_plans(shape, counts=tuple(range(1, params["counts"] + 1))))[params["fault"]]
+    elif params.get("enum") == "allinputs":
+        shape = {"kind": params["kind"]}
+        n = len(S.jobs_of(shape)["/D/0"])
+        faults = {("transfer", "/D/0"): [{"kind": params["fault_kind"], "lose": []}] * n}
+        if params["then_exec"]:
+            faults[("execute", "/D/0")] = [{"kind": "stop", "lose": []}]
     else:
         shape = S.gen_shape(t)
         # the statement speaks of loss of the failed job's own data: no ancestor loss here (C18/C19 do that)
